@@ -12,9 +12,6 @@ strictly ascending, nothing panics, nothing runs away.
 from oracledefs.common import *
 from oracledefs.common import _ops, _kb
 
-KF_TAG = 'bounded-last-end-absent'
-
-
 def _val(tok):
     return None if tok == '-' else _kb(tok)
 
@@ -69,7 +66,6 @@ class _Case:
         self.tx = None          # list of (kind, k, v) or None
         self.view = None        # sorted list of (k, v) the current iterator must show
         self.pos = 'invalid'    # int | 'invalid' | 'unknown'
-        self.end_bounds = []    # (end, keys of the view the bound was put on)
         self.prev_key = None    # adversarial: last key shown
 
     def adversarial(self):
@@ -112,12 +108,10 @@ def iter_oracle(script, impl):
             continue
         adv = c.adversarial()
         if op == 'build':
-            c.pos, c.end_bounds, c.prev_key = 'invalid', [], None
+            c.pos, c.prev_key = 'invalid', None
             v = c.base(ws[1] in ('txiter', 'txrange'))
             if len(ws) == 4:
                 lo, hi = _opt(ws[2]), _opt(ws[3])
-                if hi is not None:
-                    c.end_bounds.append((hi, set(k for k, _ in v)))
                 v = [(k, x) for k, x in v if _in(lo, hi, k)]
             c.view = v
             continue
@@ -127,8 +121,6 @@ def iter_oracle(script, impl):
             c.pos, c.prev_key = 'unknown', None
             if op == 'bound':
                 lo, hi = _opt(ws[1]), _opt(ws[2])
-                if hi is not None:
-                    c.end_bounds.append((hi, set(k for k, _ in c.view)))
                 c.view = [(k, x) for k, x in c.view if _in(lo, hi, k)]
             elif op == 'prefix':
                 p = _kb(ws[1])
@@ -189,12 +181,7 @@ def iter_oracle(script, impl):
             c.pos = len(V) - 1 if V else 'invalid'
             want = _expect(V[-1] if V else None, '-')
             if out != want and not (not V and o[1] == 'f'):
-                absent = [e for e, keys in c.end_bounds if e not in keys]
-                if V and out == '- f - - f' and absent:
-                    probs.append('%s: SeekToLast with end bound %s (not a stored key) is invalid; greatest key in range is %s'
-                                 % (KF_TAG, absent[0].hex(), V[-1][0].hex()))
-                else:
-                    probs.append('last: got "%s" want "%s"' % (out[:120], want[:120]))
+                probs.append('last: got "%s" want "%s" (greatest key of the view)' % (out[:120], want[:120]))
                 c.pos = 'unknown'
                 continue
         elif op == 'seek':
@@ -249,7 +236,7 @@ def iter_nontrivial(script, impl):
 
 
 def iter_stats(results):
-    d = dict(tags={}, ops={}, cases_with_shadowing_tombstone=0, max_sources=0, known_finding_cases=0)
+    d = dict(tags={}, ops={}, cases_with_shadowing_tombstone=0, max_sources=0, last_under_end_bound=0)
     for r in results:
         tag = (r.script[0].split() + ['', '', ''])[3] if r.script and r.script[0].startswith('#') else ''
         d['tags'][tag] = d['tags'].get(tag, 0) + 1
@@ -267,6 +254,12 @@ def iter_stats(results):
                     shadow = True
             older |= set(k for k, v in es if v is not None)
         d['cases_with_shadowing_tombstone'] += 1 if shadow else 0
-        if any(p.startswith(KF_TAG) for p in (r.problems or [])):
-            d['known_finding_cases'] += 1
+        bounded = False
+        for ws, out in _ops(r.script, r.impl):
+            if ws[0] == 'build':
+                bounded = len(ws) == 4 and ws[3] != '-'
+            elif ws[0] == 'bound' and ws[2] != '-':
+                bounded = True
+            elif ws[0] == 'last' and bounded:
+                d['last_under_end_bound'] += 1
     return d
